@@ -311,7 +311,7 @@ func (c *cse) prepSend(on mangos.Context) {
 	if c.p.Handoff(append([]byte{0x80, 0, 0, 1}, "rq"...), 3*time.Second) != vt.InjTaken {
 		hfail("%s: request not taken", c.kind)
 	}
-	m, err := on.RecvMsg()
+	m, err, _ := c.doRecv(on, 3*time.Second, "request delivered")
 	if err != nil {
 		hfail("%s: request not received: %v", c.kind, err)
 	}
@@ -326,9 +326,8 @@ func (c *cse) send(on mangos.Context, tag string, d time.Duration) error {
 	c.prepSend(on)
 	c.setOpt(on, mangos.OptionSendDeadline, d)
 	m := c.newMsg(c.body(tag))
-	t0 := time.Now()
-	err := on.SendMsg(m)
-	c.lastEl = time.Since(t0)
+	err, el := c.doSend(on, m, d, tag)
+	c.lastEl = el
 	if err != nil {
 		m.Free()
 	}
@@ -409,7 +408,7 @@ func (c *cse) armRecv() {
 			n = c.p.SentCount()
 		}
 		m := c.newMsg(c.body("survey"))
-		if err := c.sub.SendMsg(m); err != nil {
+		if err, _ := c.doSend(c.sub, m, time.Second, "survey, never blocks"); err != nil {
 			hfail("surveyor: survey Send: %v", err)
 		}
 		if c.p != nil {
@@ -446,6 +445,30 @@ func waitRes(ch <-chan res, d time.Duration) (res, bool) {
 	case <-t.C:
 		return res{}, false
 	}
+}
+
+// doSend / doRecv run a call that has a positive deadline d under a watchdog: if it is not
+// back d+2s later that is a hang in its own right; the case ends there.
+func (c *cse) doSend(on mangos.Context, m *mangos.Message, d time.Duration, what string) (error, time.Duration) {
+	ch := async(func() (*mangos.Message, error) { return nil, on.SendMsg(m) })
+	r, ok := waitRes(ch, d+upper)
+	if !ok {
+		c.add("send-hang", false, "%s Send with deadline %v (%s) was still blocked %v after it started", c.kind, d, what, d+upper)
+		c.join(ch)
+		panic(abortCase{})
+	}
+	return r.err, r.el
+}
+
+func (c *cse) doRecv(on mangos.Context, d time.Duration, what string) (*mangos.Message, error, time.Duration) {
+	ch := async(on.RecvMsg)
+	r, ok := waitRes(ch, d+upper)
+	if !ok {
+		c.add("recv-hang", false, "%s Recv with deadline %v (%s) was still blocked %v after it started", c.kind, d, what, d+upper)
+		c.join(ch)
+		panic(abortCase{})
+	}
+	return r.m, r.err, r.el
 }
 
 func errName(err error) string {
@@ -706,9 +729,7 @@ func recvRun(t stats.TB, rc recvCase) {
 			}
 			c.setOpt(c.sub, mangos.OptionRecvDeadline, d)
 			for i, want := range bodies {
-				t0 := time.Now()
-				m, err := c.sub.RecvMsg()
-				el := time.Since(t0)
+				m, err, el := c.doRecv(c.sub, d, "message queued")
 				switch {
 				case err == mangos.ErrRecvTimeout:
 					c.add("recv-spurious-timeout", true, "%s Recv #%d with deadline %v timed out after %v although %d message(s) had been delivered to the socket before the call", rc.Kind, i+1, d, el, rc.NQ-i)
@@ -933,9 +954,7 @@ func sendRun(t stats.TB, sc sendCase) {
 			c.prepSend(c.sub)
 			c.setOpt(c.sub, mangos.OptionSendDeadline, d)
 			m := c.newMsg(c.body("timed"))
-			t0 := time.Now()
-			err := c.sub.SendMsg(m)
-			el := time.Since(t0)
+			err, el := c.doSend(c.sub, m, d, "room in queue")
 			switch err {
 			case nil:
 			case mangos.ErrSendTimeout:
@@ -1076,16 +1095,22 @@ func beRun(t stats.TB, bc beCase) {
 			bc.K = 1 // one reply per received request
 		}
 	}
-	if pat.posOnly {
-		bc.KeepDL = bc.State == "blocked-full" // the fill leaves a positive deadline behind
-	}
 	canon := fmt.Sprintf("be|%s|%s|%d|%d|%v", bc.Kind, bc.State, bc.WQ, bc.K, bc.KeepDL)
 	run(t, bc, canon, "besteffort:"+bc.State, func(c *cse) {
 		c.setup(bc.Kind, bc.WQ)
 		switch bc.State {
 		case "blocked-full":
 			c.connect(true)
-			c.fill(c.sub, bc.WQ)
+			filler := c.sub
+			if pat.posOnly {
+				// a positive deadline cannot be taken back: fill through another context
+				f, err := c.sock.OpenContext()
+				if err != nil {
+					hfail("%s: OpenContext: %v", bc.Kind, err)
+				}
+				filler = f
+			}
+			c.fill(filler, bc.WQ)
 		case "blocked-room":
 			c.connect(true)
 		case "accepting", "left":
@@ -1095,12 +1120,10 @@ func beRun(t stats.TB, bc beCase) {
 		if bc.State == "left" {
 			c.dropPeer()
 		}
-		if !pat.posOnly {
-			dl := time.Duration(0)
-			if bc.KeepDL {
-				dl = 50 * time.Millisecond
-			}
-			c.setOpt(c.sub, mangos.OptionSendDeadline, dl)
+		if bc.KeepDL {
+			c.setOpt(c.sub, mangos.OptionSendDeadline, 50*time.Millisecond)
+		} else if !pat.posOnly {
+			c.setOpt(c.sub, mangos.OptionSendDeadline, time.Duration(0))
 		}
 		c.setOpt(c.sub, mangos.OptionBestEffort, true)
 		what := fmt.Sprintf("%s best-effort Send (WRITEQ-LEN %d, state %s, send deadline kept %v)", bc.Kind, bc.WQ, bc.State, bc.KeepDL)
@@ -1344,8 +1367,11 @@ func npRun(t stats.TB, nc npCase) {
 				c.respID = append([]byte{}, c.p.SentLog()[0].Data[:4]...)
 				want := c.body("reply")
 				c.deliver(want)
+				if d == 0 {
+					d = 3 * time.Second
+				}
 				c.setOpt(c.sub, mangos.OptionRecvDeadline, d)
-				rm, err := c.sub.RecvMsg()
+				rm, err, _ := c.doRecv(c.sub, d, "reply arrived")
 				switch {
 				case err == mangos.ErrRecvTimeout:
 					c.add("recv-spurious-timeout", true, "%s Recv with deadline %v timed out although the reply had arrived", nc.Kind, d)
